@@ -279,6 +279,24 @@ Proof. intros Hw Hl. destruct (vpn_nlri_roundtrip v6 withdraw rs Hw Hl) as (b & 
 Lemma vaddr_high v6 a : (v6 = true -> 2 ^ 32 <= a) -> vaddr v6 a = if v6 then V6 a else V4 a.
 Proof. destruct v6; cbn [vaddr]; intros H; [apply render_high; auto | reflexivity]. Qed.
 
+Theorem reachvpn_roundtrip : forall v6 asn an ip rs,
+  asn <= 65535 -> an < 2 ^ 32 -> ip < 2 ^ abits v6 -> (v6 = true -> 2 ^ 32 <= ip) ->
+  Forall (wf_vroute v6) rs -> Forall one_label rs ->
+  Forall (fun r => v6 = true -> 2 ^ 32 <= v_addr r) rs ->
+  forall nlri, construct_vpn v6 false rs = Ok nlri -> len nlri <= 65000 ->
+  exists v, reachvpn_construct v6 asn an ip rs =
+              Ok ([c_ATTR_MpReachNLRI_FLAG; c_ATTR_MpReachNLRI_ID] ++ be 2 (len v) ++ v) /\
+            reachvpn_parse v6 v =
+              Ok (PRd (RdAs asn an), (if v6 then V6 ip else V4 ip),
+                  map (fun r => (v_labels r, PRd (v_rd r), (if v6 then V6 (v_addr r) else V4 (v_addr r)), v_len r)) rs).
+Proof.
+  intros v6 asn an ip rs Ha Hn Hip Hhi Hw Hl Hh nlri Hc Hlen.
+  destruct (reachvpn_behaviour v6 asn an ip rs Ha Hn Hip Hw Hl nlri Hc Hlen) as (v & H1 & H2).
+  exists v. split; [exact H1|]. rewrite H2. rewrite vaddr_high by exact Hhi.
+  do 2 f_equal. apply map_ext_in. intros r Hr. unfold expect_proute.
+  rewrite vaddr_high; [reflexivity|]. rewrite Forall_forall in Hh. exact (Hh r Hr).
+Qed.
+
 (** defects, on concrete inputs *)
 Definition r_label0 : vroute := mk_vroute [0] (RdAs 100 1) 167772160 8.
 Lemma refuted_vpnv4_label_zero :
